@@ -30,6 +30,11 @@ use std::rc::Rc;
 // ------------------------------------------------------------------------------------------------
 // runtime
 
+/// self-test only (`--plant swap-free-args`, never passed by ./check): paren-free calls with two or
+/// more arguments are rendered with the first two swapped, emulating a binding defect, so that
+/// detection, shrinking and replay can be exercised on an unchanged /repo
+static PLANT: std::sync::atomic::AtomicBool = std::sync::atomic::AtomicBool::new(false);
+
 struct Runtime {
     koto: Koto,
     trace: Rc<RefCell<Vec<String>>>,
@@ -398,6 +403,9 @@ impl Call {
                 }
             };
             texts.push(if *p { format!("{}...", t) } else { t });
+        }
+        if PLANT.load(std::sync::atomic::Ordering::Relaxed) && matches!(self.form, Form::Free) && texts.len() >= 2 {
+            texts.swap(0, 1);
         }
         let paren = |f: &str, a: &[String]| format!("{}({})", f, a.join(", "));
         let free = |f: &str, a: &[String]| if a.is_empty() { format!("{}()", f) } else { format!("{} {}", f, a.join(", ")) };
@@ -1296,6 +1304,7 @@ enum Consumer {
     Take(usize),
 }
 
+#[derive(Clone, Debug)]
 struct GenCase {
     params: Vec<(u32, i64)>,
     caps: Vec<(u32, i64)>,
@@ -1392,6 +1401,315 @@ struct Pending {
     script: String,
     nontrivial: bool,
     expect_trace: Option<Vec<String>>, // bind: ticks at creation
+    ast: Option<CaseAst>,
+}
+
+/// the abstract case a script was rendered from (what the shrinker works on)
+#[derive(Clone, Debug)]
+enum CaseAst {
+    Bind(Def, Call),
+    Cap(Vec<Ex>),
+    Share(Vec<SOp>),
+    Gen(GenCase),
+}
+
+impl CaseAst {
+    fn pending(&self) -> Pending {
+        match self {
+            CaseAst::Bind(d, c) => bind_case(d, c),
+            CaseAst::Cap(s) => cap_case(s),
+            CaseAst::Share(o) => share_case(o),
+            CaseAst::Gen(g) => gen_case(g),
+        }
+    }
+
+    /// strictly smaller variants, most aggressive first
+    fn candidates(&self) -> Vec<CaseAst> {
+        let mut out = vec![];
+        match self {
+            CaseAst::Bind(d, c) => {
+                // call side
+                for i in 0..c.args.len() {
+                    if !(matches!(c.form, Form::Piped(_)) && c.args.len() == 1) {
+                        let mut c2 = c.clone();
+                        c2.args.remove(i);
+                        if !(matches!(c2.form, Form::Piped(_)) && (c2.args.is_empty() || c2.args[0].1)) {
+                            out.push(CaseAst::Bind(d.clone(), c2));
+                        }
+                    }
+                    if c.args[i].1 && !(matches!(c.form, Form::Piped(_)) && i == 0) {
+                        // a packed container loses its last element
+                        if let Some(mut es) = c.args[i].0.elems() {
+                            if es.pop().is_some() {
+                                let mut c2 = c.clone();
+                                c2.args[i].0 = V::T(es);
+                                out.push(CaseAst::Bind(d.clone(), c2));
+                            }
+                        }
+                    }
+                    if c.args[i].0 != V::I(0) && !c.args[i].1 {
+                        let mut c2 = c.clone();
+                        c2.args[i].0 = V::I(0);
+                        out.push(CaseAst::Bind(d.clone(), c2));
+                    }
+                }
+                if !matches!(c.form, Form::Paren) && !matches!(c.form, Form::Piped(_)) {
+                    out.push(CaseAst::Bind(d.clone(), Call { form: Form::Paren, args: c.args.clone() }));
+                }
+                if let Form::Piped(_) = c.form {
+                    out.push(CaseAst::Bind(d.clone(), Call { form: Form::Paren, args: c.args.clone() }));
+                }
+                // definition side
+                if d.generator {
+                    let mut d2 = d.clone();
+                    d2.generator = false;
+                    out.push(CaseAst::Bind(d2, c.clone()));
+                }
+                for i in 0..d.caps.len() {
+                    let mut d2 = d.clone();
+                    d2.caps.remove(i);
+                    out.push(CaseAst::Bind(d2, c.clone()));
+                }
+                for i in 0..d.params.len() {
+                    let mut d2 = d.clone();
+                    d2.params.remove(i);
+                    if d.variadic && i == d.params.len() - 1 {
+                        d2.variadic = false;
+                    }
+                    out.push(CaseAst::Bind(d2, c.clone()));
+                    if !matches!(d.params[i].pat, Pat::Id(_) | Pat::Ign) {
+                        let mut d3 = d.clone();
+                        d3.params[i].pat = Pat::Ign;
+                        out.push(CaseAst::Bind(d3, c.clone()));
+                        // drop one element of a nested pattern
+                        if let Pat::Tup(ps) = &d.params[i].pat {
+                            for j in 0..ps.len() {
+                                if ps.len() > 1 {
+                                    let mut q = ps.clone();
+                                    q.remove(j);
+                                    let mut d4 = d.clone();
+                                    d4.params[i].pat = Pat::Tup(q);
+                                    out.push(CaseAst::Bind(d4, c.clone()));
+                                }
+                                if !matches!(ps[j], Pat::Id(_) | Pat::Ign | Pat::Pk(_)) {
+                                    let mut q = ps.clone();
+                                    q[j] = Pat::Ign;
+                                    let mut d4 = d.clone();
+                                    d4.params[i].pat = Pat::Tup(q);
+                                    out.push(CaseAst::Bind(d4, c.clone()));
+                                }
+                            }
+                        }
+                    }
+                }
+                // the first optional parameter becomes required
+                if let Some(i) = d.params.iter().position(|p| p.default.is_some()) {
+                    let mut d2 = d.clone();
+                    d2.params[i].default = None;
+                    out.push(CaseAst::Bind(d2, c.clone()));
+                }
+            }
+            CaseAst::Cap(script) => {
+                for b in shrink_block(script) {
+                    out.push(CaseAst::Cap(b));
+                }
+            }
+            CaseAst::Share(ops) => {
+                for i in 0..ops.len() {
+                    let mut o = ops.clone();
+                    o.remove(i);
+                    out.push(CaseAst::Share(o));
+                }
+                for i in 0..ops.len() {
+                    if let SOp::Fn(f, p, body) = &ops[i] {
+                        for j in 0..body.len() {
+                            let mut b = body.clone();
+                            b.remove(j);
+                            let mut o = ops.clone();
+                            o[i] = SOp::Fn(*f, p.clone(), b);
+                            out.push(CaseAst::Share(o));
+                        }
+                    }
+                }
+            }
+            CaseAst::Gen(g) => {
+                for b in shrink_gs(&g.body) {
+                    if has_yield(&b) {
+                        out.push(CaseAst::Gen(GenCase { body: b, ..g.clone() }));
+                    }
+                }
+                let smaller = match &g.consumer {
+                    Consumer::For(Some(k)) if *k > 1 => Some(Consumer::For(Some(k - 1))),
+                    Consumer::Nexts(k) if *k > 1 => Some(Consumer::Nexts(k - 1)),
+                    Consumer::Take(k) if *k > 0 => Some(Consumer::Take(k - 1)),
+                    _ => None,
+                };
+                if let Some(c) = smaller {
+                    out.push(CaseAst::Gen(GenCase { consumer: c, ..g.clone() }));
+                }
+            }
+        }
+        out
+    }
+}
+
+/// one-step reductions of an expression (sub-expressions, literals)
+fn shrink_ex(e: &Ex) -> Vec<Ex> {
+    let mut out = vec![];
+    let bin = |a: &Ex, b: &Ex, mk: &dyn Fn(Ex, Ex) -> Ex, out: &mut Vec<Ex>| {
+        out.push(a.clone());
+        out.push(b.clone());
+        for a2 in shrink_ex(a) {
+            out.push(mk(a2, b.clone()));
+        }
+        for b2 in shrink_ex(b) {
+            out.push(mk(a.clone(), b2));
+        }
+    };
+    match e {
+        Ex::Lit(n) => {
+            if *n != 0 {
+                out.push(Ex::Lit(0));
+            }
+        }
+        Ex::Var(_) => out.push(Ex::Lit(0)),
+        Ex::Add(a, b) => bin(a, b, &|x, y| Ex::Add(Box::new(x), Box::new(y)), &mut out),
+        Ex::Sub(a, b) => bin(a, b, &|x, y| Ex::Sub(Box::new(x), Box::new(y)), &mut out),
+        Ex::Lt(a, b) => {
+            for a2 in shrink_ex(a) {
+                out.push(Ex::Lt(Box::new(a2), b.clone()));
+            }
+            for b2 in shrink_ex(b) {
+                out.push(Ex::Lt(a.clone(), Box::new(b2)));
+            }
+        }
+        Ex::Par(a) => {
+            if matches!(**a, Ex::Lit(_) | Ex::Var(_) | Ex::Call(..) | Ex::Par(_)) {
+                out.push((**a).clone());
+            }
+            for a2 in shrink_ex(a) {
+                out.push(Ex::Par(Box::new(a2)));
+            }
+        }
+        Ex::Ite(c, t, f) => {
+            out.push(Ex::Par(t.clone()));
+            out.push(Ex::Par(f.clone()));
+            for c2 in shrink_ex(c) {
+                out.push(Ex::Ite(Box::new(c2), t.clone(), f.clone()));
+            }
+            for t2 in shrink_ex(t) {
+                out.push(Ex::Ite(c.clone(), Box::new(t2), f.clone()));
+            }
+            for f2 in shrink_ex(f) {
+                out.push(Ex::Ite(c.clone(), t.clone(), Box::new(f2)));
+            }
+        }
+        Ex::Asg(x, a) => {
+            if let Ex::Fn(ps, body) = &**a {
+                for b in shrink_block(body) {
+                    out.push(Ex::Asg(*x, Box::new(Ex::Fn(ps.clone(), b))));
+                }
+            } else {
+                for a2 in shrink_ex(a) {
+                    out.push(Ex::Asg(*x, Box::new(a2)));
+                }
+            }
+        }
+        Ex::Fn(..) => {}
+        Ex::Call(f, args) => {
+            out.push(Ex::Lit(0));
+            for i in 0..args.len() {
+                for a2 in shrink_ex(&args[i]) {
+                    let mut v = args.clone();
+                    v[i] = a2;
+                    out.push(Ex::Call(*f, v));
+                }
+            }
+        }
+    }
+    out
+}
+
+/// remove a line (blocks stay non-empty), or reduce one line
+fn shrink_block(b: &[Ex]) -> Vec<Vec<Ex>> {
+    let mut out = vec![];
+    if b.len() > 1 {
+        for i in 0..b.len() {
+            let mut v = b.to_vec();
+            v.remove(i);
+            out.push(v);
+        }
+    }
+    for i in 0..b.len() {
+        for e2 in shrink_ex(&b[i]) {
+            let mut v = b.to_vec();
+            v[i] = e2;
+            out.push(v);
+        }
+    }
+    out
+}
+
+/// remove a statement, replace a compound statement by one of its blocks, or reduce inside
+fn shrink_gs(b: &[GS]) -> Vec<Vec<GS>> {
+    let mut out = vec![];
+    for i in 0..b.len() {
+        let mut v = b.to_vec();
+        v.remove(i);
+        out.push(v);
+    }
+    for i in 0..b.len() {
+        let splice = |inner: &[GS], out: &mut Vec<Vec<GS>>| {
+            let mut v = b[..i].to_vec();
+            v.extend_from_slice(inner);
+            v.extend_from_slice(&b[i + 1..]);
+            out.push(v);
+        };
+        let rebuild = |s: GS, out: &mut Vec<Vec<GS>>| {
+            let mut v = b.to_vec();
+            v[i] = s;
+            out.push(v);
+        };
+        match &b[i] {
+            GS::If(c, t, e) => {
+                splice(t, &mut out);
+                splice(e, &mut out);
+                for t2 in shrink_gs(t) {
+                    if !t2.is_empty() {
+                        rebuild(GS::If(c.clone(), t2, e.clone()), &mut out);
+                    }
+                }
+                for e2 in shrink_gs(e) {
+                    rebuild(GS::If(c.clone(), t.clone(), e2), &mut out);
+                }
+            }
+            GS::For(v, lo, hi, body) => {
+                for b2 in shrink_gs(body) {
+                    if !b2.is_empty() {
+                        rebuild(GS::For(*v, lo.clone(), hi.clone(), b2), &mut out);
+                    }
+                }
+            }
+            GS::While(c, body) => {
+                // the trailing counter increment must stay (termination)
+                if body.len() > 1 {
+                    for b2 in shrink_gs(&body[..body.len() - 1]) {
+                        let mut b3 = b2;
+                        b3.push(body[body.len() - 1].clone());
+                        rebuild(GS::While(c.clone(), b3), &mut out);
+                    }
+                }
+            }
+            GS::Emit(e) | GS::Yield(e) => {
+                if !matches!(e, GE::Lit(0)) {
+                    let s = if matches!(b[i], GS::Emit(_)) { GS::Emit(GE::Lit(0)) } else { GS::Yield(GE::Lit(0)) };
+                    rebuild(s, &mut out);
+                }
+            }
+            _ => {}
+        }
+    }
+    out
 }
 
 struct Ctx {
@@ -1440,17 +1758,57 @@ impl Ctx {
             let (ok, impl_text, detail) = compare(c, &res, &trace, model);
             if !ok {
                 let name = format!("K:C02:{}", c.family);
+                // AST-level shrinking: greedily take the first smaller case that still disagrees
+                // with the same kind of implementation outcome (value / same error class)
+                let mut best = (c.script.clone(), c.request.clone(), impl_text.clone(), model.clone(), detail.clone());
+                let mut steps = 0u32;
+                if let Some(ast0) = &c.ast {
+                    let kind0 = outcome_kind.clone();
+                    let mut cur = ast0.clone();
+                    let mut budget = 600u32;
+                    'outer: loop {
+                        for cand in cur.candidates() {
+                            if budget == 0 {
+                                break 'outer;
+                            }
+                            budget -= 1;
+                            let p = cand.pending();
+                            let m = self.drv.as_mut().unwrap().ask(&p.request);
+                            if m.contains("FUEL") || m.contains("E:fuel") || m == "bad-request" {
+                                continue;
+                            }
+                            let (r2, t2) = self.rt.run(&p.script);
+                            let k2 = if r2.starts_with("E:") || r2.starts_with("PANIC") { r2.split(':').take(2).collect::<Vec<_>>().join(":") } else { "value".to_string() };
+                            if k2 != kind0 {
+                                continue;
+                            }
+                            let (ok2, i2, d2) = compare(&p, &r2, &t2, &m);
+                            if !ok2 {
+                                best = (p.script.clone(), p.request.clone(), i2, m, d2);
+                                cur = cand;
+                                steps += 1;
+                                continue 'outer;
+                            }
+                        }
+                        break;
+                    }
+                }
                 self.rep.violation(
                     "D",
                     &name,
                     json!({
                         "family": c.family,
-                        "program": c.script,
-                        "request": c.request,
-                        "implementation": impl_text,
-                        "model": model,
-                        "why": detail,
-                        "note": "the model is the formalised guide (DESIGN §3): a disagreement on a well-formed case is a property violation; replay = the script",
+                        "program": best.0,
+                        "request": best.1,
+                        "implementation": best.2,
+                        "model": best.3,
+                        "why": best.4,
+                        "shrink_steps": steps,
+                        "original_program": c.script,
+                        "original_request": c.request,
+                        "original_implementation": impl_text,
+                        "original_model": model,
+                        "note": "the model is the formalised guide (DESIGN §3): a disagreement on a well-formed case is a property violation; replay = the (shrunk) script",
                     }),
                 );
             } else {
@@ -1521,6 +1879,7 @@ fn bind_case(d: &Def, c: &Call) -> Pending {
         script: format!("{}{}", d.koto(), c.koto(d.generator)),
         nontrivial: d.params.len() + d.caps.len() >= 1,
         expect_trace: Some(ticks),
+        ast: Some(CaseAst::Bind(d.clone(), c.clone())),
     }
 }
 
@@ -1533,6 +1892,7 @@ fn cap_case(script: &[Ex]) -> Pending {
         script: s,
         nontrivial: script.iter().any(|e| matches!(e, Ex::Asg(_, b) if matches!(**b, Ex::Fn(..)))),
         expect_trace: None,
+        ast: Some(CaseAst::Cap(script.to_vec())),
     }
 }
 
@@ -1548,11 +1908,12 @@ fn share_case(ops: &[SOp]) -> Pending {
         script: s,
         nontrivial: ops.iter().any(|o| matches!(o, SOp::Call(..))),
         expect_trace: None,
+        ast: Some(CaseAst::Share(ops.to_vec())),
     }
 }
 
 fn gen_case(g: &GenCase) -> Pending {
-    Pending { family: "gen", request: g.request(), script: g.koto(), nontrivial: true, expect_trace: None }
+    Pending { family: "gen", request: g.request(), script: g.koto(), nontrivial: true, expect_trace: None, ast: Some(CaseAst::Gen(g.clone())) }
 }
 
 /// hand-written cases that pin the mutation classes of DESIGN §11 and the guide's own examples
@@ -1693,7 +2054,7 @@ fn corpus_cases(ctx: &mut Ctx, dir: &std::path::Path) {
         };
         let expect_trace = None;
         ctx.rep.bump("corpus");
-        ctx.push(Pending { family, request: req, script: script.to_string(), nontrivial: true, expect_trace });
+        ctx.push(Pending { family, request: req, script: script.to_string(), nontrivial: true, expect_trace, ast: None });
     }
 }
 
@@ -1748,6 +2109,10 @@ fn main() {
     rep.rule = "case = one script + the same abstract case for the model. bind: function definition (0-3 required, 0-3 optional with tick()-wrapped defaults, variadic?, 0-3 captures reassigned after creation, `_`, nested tuple patterns depth<=2 with leading/trailing ellipsis, map patterns {k}, {k as v}, {k as _}) x call form (paren, paren-free, piped, instance, generator call) x argument count arity-2..arity+2 x 0-2 (thorough 0-3) packed arguments of length 0-3 at any position (count grid enumerated exhaustively for plain parameters, random for rich ones); cap: random scripts with nested/recursive closures; share: random histories over int/list variables, closures, defaults; gen: random generator bodies x 5 consumers. distinct = distinct request lines; non-trivial = bind: at least one parameter or capture, cap: defines a closure, share: calls a closure, gen: all".into();
     let drv = if args.driver.is_empty() || args.has_flag("--no-driver") { None } else { Some(Driver::spawn(&args.driver)) };
     let mut ctx = Ctx { rt: Runtime::new(), drv, rep, pending: vec![] };
+    if args.extra.windows(2).any(|w| w[0] == "--plant" && w[1] == "swap-free-args") {
+        PLANT.store(true, std::sync::atomic::Ordering::Relaxed);
+        ctx.rep.note("SELF-TEST: planted renderer fault swap-free-args is active; violations are expected");
+    }
 
     if let Some(path) = args.replay.clone() {
         // re-run one recorded failure: the replay file holds request + program
@@ -1766,6 +2131,7 @@ fn main() {
             script: d["program"].as_str().unwrap_or("").to_string(),
             nontrivial: true,
             expect_trace: None,
+            ast: None,
         });
         ctx.flush();
         std::process::exit(ctx.rep.finish());
